@@ -89,6 +89,14 @@ def gen_jobs(tier, seed):
                                                 {"k": "inter", "args": [rand_dep(rng, 3), rand_dep(rng, 3)]}]}
                 else:               # an intersection nested in an intersection
                     t = {"k": "inter", "args": [cls(1), {"k": "inter", "args": [cls(2), rand_dep(rng, 2)]}]}
+            elif shape == 4 and q % 20 == 14:
+                # a dependent type whose bound is itself value-dependent (a Literal, another Dependent)
+                if r < 0.6:
+                    inner = rand_lit(rng) if rng.random() < 0.6 else rand_dep(rng, 2)
+                    pool_ = inst_names(inner["bound"]["c"])
+                    t = {"k": "dep", "bound": inner, "holds": sorted(rng.sample(pool_, rng.randint(1, len(pool_))))}
+                else:
+                    t = cls(rng.choice([1, 2, 3]))
             elif shape == 4 and q % 20 == 4:
                 # a dependent type whose bound is a union of classes (int | str, int | A), in both spellings
                 if r < 0.6:
@@ -177,8 +185,9 @@ def gen_jobs(tier, seed):
 
 
 def judged_ok(methods):
-    """value_outcome is only judged when every annotation is a class, a Dependent or a Literal"""
-    return all(t["k"] in ("cls", "dep", "lit") for m in methods for t in list(m["pos"]) + list(m.get("kwt", [])))
+    """value_outcome is only judged when every annotation is a class, a Dependent or a Literal (bounds: classes or unions of classes)"""
+    return all(t["k"] in ("cls", "dep", "lit") and (t["k"] == "cls" or t["bound"]["k"] in ("cls", "union"))
+               for m in methods for t in list(m["pos"]) + list(m.get("kwt", [])))
 
 
 def run(prop, tier, seed, replay=None):
